@@ -269,8 +269,11 @@ Inductive event :=
 | EvCRestart (n : nat)
 | EvDump | EvCDump
 | EvSnapTake                       (* raft calls FSM.Snapshot() on the leader: the state is serialised at this index *)
-| EvSnapInstall (j : nat).         (* later: Snapshoter.Save(); follower j (not ahead of it) restores those bytes onto its
+| EvSnapInstall (j : nat)          (* later: Snapshoter.Save(); follower j (not ahead of it) restores those bytes onto its
                                       live state and continues replaying the log from the snapshot's index *)
+| EvCHeartbeatSyncFail (n : nat)   (* a heartbeat round whose reply arrives but whose SyncPartitions proposal fails
+                                      transiently (term change, timeout, read-only window): nothing is committed
+                                      and, because heartbeatLoop `continue`s, the cache is NOT refreshed *).
 
 (* ---------- replica events ---------- *)
 Definition ev_catchup (w : world) (j k : nat) : world :=
@@ -439,6 +442,26 @@ Definition c_heartbeat (w : world) (n : nat) (lost : bool) : world * option (opt
   | None => (w, None)
   end.
 
+(* would this heartbeat round call SyncPartitions? (reply and cache differ in size) *)
+Definition sync_needed (w : world) (n : nat) : bool :=
+  match cur_node w n with
+  | Some nd =>
+      match n_pc nd with
+      | PcRun id => match snd (m_heartbeat w id) with
+                    | Some ps => negb (Nat.eqb (set_size ps) (set_size (n_cache nd)))
+                    | None => false
+                    end
+      | _ => false
+      end
+  | None => false
+  end.
+
+(* a round whose sync fails: if no sync was needed it is an ordinary completed round; otherwise the master has
+   acted (volatile table) but neither the durable state nor the node's cache change - the same world as after a
+   lost reply *)
+Definition c_heartbeat_syncfail (w : world) (n : nat) : world * option (option (list N)) :=
+  c_heartbeat w n (sync_needed w n).
+
 (* one partitionMonitorLoop round that decides to ask: NewPartition, AddPartition, append to the cache *)
 Definition c_monitor (w : world) (n : nat) (lost : bool) : world * option (mres * bool) :=
   match cur_node w n with
@@ -491,6 +514,7 @@ Definition step (w : world) (e : event) : world :=
   | EvCDump => w
   | EvSnapTake => ev_snap_take w
   | EvSnapInstall j => ev_snap_install w j
+  | EvCHeartbeatSyncFail n => fst (c_heartbeat_syncfail w n)
   end.
 
 Definition run_from (w : world) (evs : list event) : world := fold_left step evs w.
@@ -588,6 +612,7 @@ Definition decode (op : list Z) : option event :=
   | [27; n] => Some (EvCLeader (zn n))
   | [28; n] => Some (EvCRestart (zn n))
   | [29] => Some EvCDump
+  | [30; n] => Some (EvCHeartbeatSyncFail (zn n))
   | _ => None
   end%Z.
 
@@ -623,6 +648,12 @@ Definition observe (w : world) (e : event) : list Z :=
                        | None => [(-2)%Z] end
   | EvCHeartbeat n lost =>
       match snd (c_heartbeat w n lost) with
+      | Some (Some ps) => (if w_fatal w' then 2%Z else 1%Z) :: enc_list ps ++ enc_list (c_parts (w_cur w'))
+      | Some None => [0%Z]
+      | None => [(-2)%Z]
+      end
+  | EvCHeartbeatSyncFail n =>
+      match snd (c_heartbeat_syncfail w n) with
       | Some (Some ps) => (if w_fatal w' then 2%Z else 1%Z) :: enc_list ps ++ enc_list (c_parts (w_cur w'))
       | Some None => [0%Z]
       | None => [(-2)%Z]
